@@ -61,7 +61,7 @@ def texts(tier):
     base = st.one_of(G.any_valid_program(stdlib=False), edited_program(), edited_program(), _TEXT, _BLANK, _LINEY, _LINEY.map(lambda t: t + '\n'),
                      _TABMIX)
     prev = st.one_of(st.none(), st.none(), st.sampled_from(['a = 1\nb = 2\nc = a + b\nprint(c)\n', 'x = (\n', '', 'def f():\n    return 1\nf()\nf()\n']))
-    return st.fixed_dictionaries({'text': base, 'offset': st.sampled_from([0, 0, 1, 2, 5]), 'prev': prev})
+    return st.fixed_dictionaries({'text': base, 'offset': st.sampled_from([0, 0, 1, 2, 5]), 'prev': prev, 'exotic': st.sampled_from([0, 0, 1, 2, 3])})
 
 
 STRATEGIES = {'texts': texts}
@@ -91,12 +91,14 @@ def judge(case):
     MAIN_REPORT.full_clear()
     try:
         if k:
-            prelude = 'v = 1\n' * (k - 1) + '##### Part 1\n'
+            exotic = ['v = 1\n', '# page \x0c break\n', 's = "a\u2028b"\n', '# \x85 \x0b \x1c\n']
+            prelude = ''.join(exotic[(case.get('exotic', 0) + i) % len(exotic)] if case.get('exotic') else 'v = 1\n' for i in range(k - 1)) + '##### Part 1\n'
             contextualize_report(prelude + text)
             separate_into_sections(independent=True)
             before = len(MAIN_REPORT.feedback)
             next_section()
-            shifted_kind, shifted = reference('\n' * k + text)
+            # whole-file numbering: the prelude's real line count (line terminators as CPython's tokenizer sees them), not str.splitlines
+            shifted_kind, shifted = reference(''.join('#\n' for _ in range(k)) + text)
         elif case.get('prev') is not None:
             # a history: an earlier text was verified in the same report, then the source is replaced
             from pedal.source import set_source
